@@ -240,8 +240,20 @@ def r15_7(chk, mod):
         tgt = cells[0].target.as_atom()[1].as_atom()
         val = cells[0].extra["args"][0].as_atom()
         toks = args[1].key() if len(args) == 2 else ""
-        from_rows = toks.startswith(f"re.findall(VALUES_REGEX, {robj}[") and toks.endswith(")") or \
-            (toks.startswith("(comp ListComp re.findall(VALUES_REGEX, ") and f"((iter {robj} ()))" in toks)       # rows tokenised beforehand, one list per row
+        def whole_row(t):
+            """the row as it was kept, at most stripped of surrounding blanks: the quote-aware tokeniser must see the whole line (a cut made on
+            the raw text -- split('#'), a slice, replace -- is blind to quotes and tears quoted values apart)"""
+            a_ = t.as_atom() if t is not None else None
+            while a_ and a_[0] == "call" and call_name(a_) in (".strip", ".rstrip", ".lstrip") and not a_[2]:
+                a_ = a_[1].as_atom()[1].as_atom()
+            return bool(a_ and a_[0] in ("sub", "lv", "lc") and (a_[0] != "sub" or (a_[1].key() == robj and len(a_[2]) == 1 and not str(a_[2][0]).startswith("(slice"))))
+
+        def tokenised(t):
+            a_ = t.as_atom() if t is not None else None
+            return bool(a_ and a_[0] == "call" and call_name(a_) == "re.findall" and len(a_[2]) == 2 and a_[2][0].key() == "VALUES_REGEX" and whole_row(a_[2][1]))
+        ta_ = args[1].as_atom() if len(args) == 2 else None
+        from_rows = (len(args) == 2 and tokenised(args[1])) or \
+            bool(ta_ and ta_[0] == "comp" and ta_[1] == "ListComp" and f"((iter {robj} ()))" in toks and tokenised(ta_[2]))   # rows tokenised beforehand, one list per row
         okc = bool(len(args) == 2 and args[0].key() == kobj and from_rows
                    and tgt and tgt[0] == "sub" and tgt[2][0].key() == f"{kobj}[{z.index}]" and val and call_name(val) == "parse_value"
                    and val[2][0].key() == f"{args[1]}[{z.index}]")
